@@ -6,5 +6,4 @@ func strconvQuote(s string) string { return strconv.Quote(s) }
 
 func strconvUnquote(s string) (string, error) { return strconv.Unquote(s) }
 
-
 func thoroughExtras(repo, verif string, spec PropSpec) map[string]any { return nil }
